@@ -6,9 +6,10 @@ import units.bk as bk
 import units.fx as fxu
 
 NAME = 'drv'
-OVERLAYS = ['bk', 'fx', 'ord', 'drv']
+OVERLAYS = ['bk', 'fx', 'ord', 'drv', 'inp']
+OWN_OVERLAYS = ['drv', 'inp']
 VERUS_FLAGS = ['--no-lifetime']
-VERIFY_MODULES = ['app::approot']
+VERIFY_MODULES = ['app::approot', 'app::input_parse']
 
 
 def tx_csv_part(ctx):
@@ -52,13 +53,25 @@ def approot_src(ctx, items):
     return ar
 
 
+def input_parse_part(ctx):
+    """app/input_parse.rs: parse_initial_status (-b SYM:shares:acb); splitting / trimming / number syntax are stand-ins"""
+    ip = Src(ctx, 'app/input_parse.rs').cut_tests().standard()
+    ip.sub(r'(?ms)^use [^;]*;\n', '', 'select')
+    ip.replace('let mut parts: Vec<String> = opt.split(":").map(|s| s.to_string()).collect();',
+               'let mut parts: Vec<String> = hole_split_colon(opt);', 'H')
+    ip.replace('let symbol = parts.pop().unwrap().trim().to_string();', 'let symbol = hole_trim_string(parts.pop().unwrap());', 'H')
+    use = ("use std::collections::HashMap;\nuse crate::rust_decimal::Decimal;\nuse crate::portfolio::{PortfolioSecurityStatus, Security};\n"
+           "use crate::util::decimal::GreaterEqualZeroDecimal;\n")
+    return mod('input_parse', use + ip.text())
+
+
 def build(ctx):
     p = bk.parts(ctx)
     f = fxu.fx_parts(ctx)
     import units.ord as ordu
     o = ordu.ord_parts(ctx)
     ar = approot_src(ctx, ['type Error', 'fn run_acb_app_to_delta_models'])
-    app = mod('app', mod('approot', APP_USE + ar.text()))
+    app = mod('app', mod('approot', APP_USE + ar.text()) + input_parse_part(ctx))
     stubs = open(os.path.join(os.path.dirname(os.path.dirname(os.path.abspath(__file__))), 'shim', 'util_stubs.rs')).read()
     head = shim('base', 'std').replace('verus! {\n/// Trusted contracts for std', fxu.MACROS + 'verus! {\n/// Trusted contracts for std', 1)
     return (head + "verus! {\n"
@@ -70,11 +83,14 @@ def build(ctx):
 
 
 def OVERLAY_SPLIT(op):
+    if 'mod input_parse' in op['path']:
+        return 'inp'
     if 'mod app' in op['path'] or 'mod tx_csv' in op['path']:
         return 'drv'
     return fxu.OVERLAY_SPLIT(op) if fxu.OVERLAY_SPLIT(op) == 'fx' else ('ord' if ('mod misc' in op['path'] or 'mod splits' in op['path']) else 'bk')
 
 
 TAG_RULES = [
+    (r'input_parse::', ['C16']),
     (r'approot::', ['C07', 'C08', 'C16', 'C04']),
 ] + bk.TAG_RULES
